@@ -134,6 +134,9 @@ def nontrivial(cfg, trace):
 def run(ctx):
     C.proof_step(ctx, ['engine.io delivers one transport\'s messages sequentially and contains handler exceptions'])
     S.run_cases(ctx, PROFILE, ctx.scale(120, 2500), 40, oracle=oracle, nontrivial=nontrivial)
+    # an event that arrives while the same client's disconnect is in progress (asyncio, all release orders)
+    from .. import sched_async
+    sched_async.run_event_during_disconnect(ctx)
     ctx.coverage['rule'] = ('generated scenarios (several clients/namespaces, function/catch-all/class handlers, ids None/0/equal '
                             'across clients/huge, binary arguments, handlers returning None/scalars/lists/dicts/tuples/bytes) run on '
                             'Server and AsyncServer and on the Lean model, compared op by op; oracle = statement of C05 on the wire. '
@@ -141,4 +144,7 @@ def run(ctx):
 
 
 def replay(ctx, r):
+    if isinstance(r.get('replay'), dict) and r['replay'].get('kernel') == 'sched_async':
+        from .. import sched_async
+        return sched_async.replay(ctx, r['replay'])
     return S.replay_case(ctx, r)
